@@ -16,7 +16,7 @@ from ..ref import canon
 from ..spec import features
 from ..core import SimStepCap
 from ..seams import reset_gene_read_cap
-from ..world import SynthWorld, exc_site
+from ..world import SynthWorld, make_world, exc_site
 
 ID = "C09"
 LEVEL = "exploration"
@@ -41,6 +41,13 @@ def budget(tier):
     return {"runs": 3000, "run_timeout": 60, "max_wall": 200}
 
 
+def directed(tier):
+    """the shipped grammars and the test-suite hierarchies (real classes) under seeded configurations"""
+    from ..world import corpus_directed
+
+    return corpus_directed(tier, per_spec_quick=2, per_spec_thorough=8)
+
+
 def run(ctx):
     from geneticengine.algorithms.gp.population import Population
     from geneticengine.evaluation.sequential import SequentialEvaluator
@@ -49,7 +56,7 @@ def run(ctx):
     from geneticengine.solutions.individual import Individual
 
     H = ctx.H
-    w = SynthWorld(ctx, feat=FEAT, gene_lengths=(3, 8, 32, 64))
+    w = make_world(ctx, FEAT, gene_lengths=(3, 8, 32, 64))
     try:
         ctx.sample = w.describe()
         if not w.extract().ok:
